@@ -26,6 +26,8 @@ PROGRAMS = [
     "m = [\n 1,\n 2,\n]\nr = f(a,\n b,\n)\nq = {'k': g(1, ),\n}\nm.push(1,\n)",
     "s = \"page one\x0cpage two\"\nt = %a\x0bb\x1c% # c\u2028 d\x85 e\nu = 'x\u2029y\x1dz'\ns + t + u",
     "\n\nx = 10\ny = 20\n\nx + y\n",
+    "r = (a not in b)\nf(x not in [1, 2], [y not in z])\nq = {'k': p not in q,\n 'j': not m, 'i': n in o}\nr if a not in r else (not q)",
+    "g = x => x if x > 0 else 0\nh = (a, b) => a if a else b\nl | map(v => v if v else 1) | filter(w => not w)\ng(1) + h(2, 3)",
 ]
 
 
@@ -71,7 +73,7 @@ def parse_outcome(text, parser=None):
 
 REWRITES = ['space', 'tab', 'comment', 'break_in_brackets', 'crlf', 'semicolon_for_newline', 'newline_for_semicolon',
             'blank_newline', 'blank_semicolon', 'leading_newline', 'trailing_newline', 'comment_line', 'spaces_around_all',
-            'trailing_comma', 'parens_literal', 'parens_name', 'dot_to_pipe']
+            'trailing_comma', 'parens_literal', 'parens_name', 'dot_to_pipe', 'newline_for_blank']
 OPERAND_BEFORE = {'PLUS', 'MINUS', 'TIMES', 'DIVIDE', 'POWER', 'EQ', 'NE', 'GT', 'LT', 'GTE', 'LTE', 'AND', 'OR', 'IN', 'NOT', 'LPAREN',
                   'LBRACKET', 'COMMA', 'ASSIGN', 'SHORT_OP', 'COLON', 'IF', 'ELSE', 'NEWLINE', 'LAMBDA', 'LBRACE', None}
 OPERAND_AFTER_BAD = {'LPAREN', 'LAMBDA', 'ASSIGN', 'SHORT_OP'}
@@ -113,6 +115,29 @@ def rewrite(text, kind, pos):
             return None
         b = inside[pos]
         return text[:b] + '\n' + text[b:]
+    if kind == 'newline_for_blank':
+        # every blank that stands inside brackets and is neither part of a string literal, a %..% name nor a comment
+        # becomes a line break (also blanks the lexer under test swallows into some longer token)
+        spots = []
+        n = 0
+        for t in toks:
+            gap_start = toks[n - 1][3] if n else 0
+            in_comment = False
+            for q in range(gap_start, t[2]):
+                if text[q] == '#':
+                    in_comment = True
+                elif text[q] == '\n':
+                    in_comment = False
+                elif text[q] == ' ' and not in_comment and t[4] > 0:
+                    spots.append(q)
+            if t[0] != 'STRING' and not (t[0] == 'NAME' and str(text[t[2]:t[3]]).startswith('%')) and t[4] > 0:
+                spots += [q for q in range(t[2], t[3]) if text[q] == ' ']
+            n += 1
+        spots = sorted(set(spots))
+        if pos >= len(spots):
+            return None
+        b = spots[pos]
+        return text[:b] + ('\n' if pos % 2 == 0 else '\r\n') + text[b + 1:]
     if kind == 'crlf':
         if pos > 0:
             return None
@@ -221,13 +246,13 @@ with _h.native():
 
 def layout_rewrite(ri: int, pos: int) -> None:
     """
-    pre: 0 <= ri < 17 and pos == 0
+    pre: 0 <= ri < 18 and pos == 0
     post: True
     """
     # the solver chooses the rewrite kind; every applicable position of that rewrite is then tried natively in one path
     hlib.enter(locals())
     pi = hlib.PARAM["program"]
-    ri = hlib.concrete(ri, 0, 16)
+    ri = hlib.concrete(ri, 0, 17)
     hlib.assume(NPOS[(pi, ri)] > 0)
     bad = None
     with hlib.native():
